@@ -14,7 +14,7 @@
    SetSpliceCountdown, SetTransportPrivateData, SetAdaptationFieldExtension, Packet.SetAdaptationField) are
    covered by step_refines and therefore by the history theorem; nothing is _partial there. *)
 From Gots Require Import Base.Prelude Model.Pcr Model.AF Model.AFfn Spec.AFSpec
-  Proofs.AFLists Proofs.PcrBytes Proofs.AFHistory Proofs.AFGetters Proofs.AFExamples Proofs.AFTotal Proofs.AFLastSet.
+  Proofs.AFLists Proofs.PcrBytes Proofs.AFHistory Proofs.AFGetters Proofs.AFExamples Proofs.AFTotal Proofs.AFLastSet Proofs.AFFrame.
 
 (* one call: Ok => the bytes are the serialisation of the updated logical value (same header, same payload,
    same adaptation_field_length); Err => the operation cannot be honoured (and the packet is untouched, see
@@ -39,6 +39,13 @@ Theorem C03_history_every_prefix : forall h1 h2 p l hdr pay, repr p l hdr pay ->
   exists l', hist_rel l h1 l' /\ repr (AF.run p h1) l' hdr pay.
 Proof. exact history_every_prefix. Qed.
 Print Assumptions C03_history_every_prefix.
+
+(* byte-level frame: the four header bytes, adaptation_field_length and the payload are untouched by any history *)
+Theorem C03_frame_history : forall p l hdr pay h, repr p l hdr pay -> Forall op_ok h ->
+  takeN 5 (AF.run p h) = takeN 5 p /\ dropN (5 + l_len l) (AF.run p h) = dropN (5 + l_len l) p /\
+  length (AF.run p h) = 188%nat.
+Proof. exact frame_history. Qed.
+Print Assumptions C03_frame_history.
 
 (* a call that cannot be honoured returns an error and leaves the packet byte-for-byte unchanged; an error is
    reported only then *)
